@@ -11,8 +11,8 @@
    Proved: the involution for power-of-two sizes, Remove/Lookup agreement, and the concrete
    murmur3 model's agreement is checked by correspondence. *)
 From GX.Model Require Import Base Murmur Cuckoo.
-From GX.Proofs Require Import ListLemmas CuckooProofs.
-From Coq Require Import ZArith.
+From GX.Proofs Require Import ListLemmas CuckooProofs CuckooInv.
+From Coq Require Import ZArith Permutation.
 
 (* mechanism: alternate bucket computable from (bucket, fingerprint hash) is an involution for
    power-of-two sizes ... *)
@@ -31,6 +31,18 @@ Theorem C02_remove_iff_lookup : forall h64 f x,
   | _, _ => False
   end.
 Proof. exact remove_iff_lookup. Qed.
+
+(* "An Insert that returns normally has stored the element", and relocation never drops or
+   duplicates an entry: after a successful insert (any flags, any random evictions) the multiset
+   of slot contents is the old one with one empty slot replaced by the new fingerprint *)
+Theorem C02_insert_stores_and_only_moves : forall h64 f x coin draws fp i1 i2 f',
+  ck_positions h64 f x = Ok (fp, i1, i2) ->
+  ck_insert h64 f x true coin draws = InsOk f' ->
+  Permutation ([] :: all_slots f') (fp :: all_slots f).
+Proof.
+  intros h64 f x coin draws fp i1 i2 f' Hp Hi.
+  pose proof (insert_conserves h64 f x coin draws fp i1 i2 Hp) as H. rewrite Hi in H. exact H.
+Qed.
 
 (* witness histories on the concrete murmur3 model *)
 Inductive wop := WIns (x : bytes) (coin : bool) (draws : list N) | WRem (x : bytes).
@@ -74,3 +86,4 @@ Print Assumptions C02_alt_not_involutive.
 Print Assumptions C02_remove_iff_lookup.
 Print Assumptions C02_refuted_non_pow2.
 Print Assumptions C02_refuted_empty_fingerprint.
+Print Assumptions C02_insert_stores_and_only_moves.
